@@ -39,5 +39,13 @@ for k in list(sp["triggers"]):
         print("TRIGGER GONE", k)
 for k in inv:
     if k not in sp["triggers"]:
-        print("new call site (not added):", k, inv[k]["text"])
+        if "--all" in sys.argv:
+            sp["triggers"][k] = {"lits": inv[k]["lits"], "text": inv[k]["text"]}
+            print("call site added:", k, inv[k]["text"])
+        else:
+            print("new call site (not added; pass --all after review):", k, inv[k]["text"])
+if "--all" in sys.argv:
+    for k in list(sp["triggers"]):
+        if k not in inv:
+            del sp["triggers"][k]
 json.dump(sp, open(p, "w"), indent=1)
